@@ -11,7 +11,7 @@ RULE = ("fixed network R-p0-J0=(pa || pb)=J1 (closing the target pa never isolat
         "CLOCKTIME c (daily), rule IF SYSTEM TIME rel t, rule IF SYSTEM CLOCKTIME rel c with rel in {=, >, >=, <, <=}, with and "
         "without ELSE, actions OPEN/CLOSED, priorities {1,3,5}; t in {0, 1h, 1h18 (off the hydraulic grid, on the 6-min rule grid), "
         "1h21m40 (off both), 2h, 25h}, c in {0:00, 1:00, 6:30, 23:00, 23:30 and 23:57 (inside the step that ends at midnight)}; start_clocktime {0, 3h, 22h}; hydraulic step {1h, 30min}; rule "
-        "step {6 min, 1 h}; report 'ALL'; plus single controls and rules written into an INP file in every time notation EPANET accepts (H:MM:SS, H:MM, decimal hours; clock times with AM/PM, 24-hour with and without seconds; hours 0, 12, 13, 23) and read by the INP reader; plus daily close/reopen pairs (simple and rule) over a 99-hour run.  singles are fully crossed with the options, sets use start {0, 3h} x hyd 1h x rule 6 min.  "
+        "step {6 min, 1 h}; report 'ALL'; plus single controls and rules written into an INP file in every time notation EPANET accepts (H:MM:SS, H:MM, decimal hours; clock times with AM/PM, 24-hour with and without seconds; hours 0, 12, 13, 23) and read by the INP reader; plus daily close/reopen pairs (simple and rule) over a 99-hour run; simple clock-range controls with midnight off the grid; runs paused at 1/2/3 h and continued with the instant in the following hydraulic interval.  singles are fully crossed with the options, sets use start {0, 3h} x hyd 1h x rule 6 min.  "
         "oracle: reference event timeline (one-shot time controls, daily clock-time controls, level-triggered rules at positive "
         "multiples of the rule step, rules before simple controls, highest priority wins); every instant at which the timeline "
         "changes must be a solved step and the reported status at every solved step must equal the timeline.  non-trivial: the "
@@ -238,6 +238,18 @@ def cases(tier):
                 cs = [dict(ctl("clock", "<", cth, "CLOSED"), name="c0"), dict(ctl("clock", ">=", cth, "OPEN"), name="c1")]
                 s["controls"] = cs if order == 0 else cs[::-1]
                 out.append(s)
+    # paused and continued runs: single rules / controls whose instant falls in the hydraulic interval right after the pause
+    for pause in (H, 2 * H, 3 * H):
+        cs = [ctl("time", "=", pause + 18 * 60, "CLOSED"), ctl("clock", "=", (pause + 18 * 60 + 3 * H) % DAY, "CLOSED")]
+        cs += [ctl("time", rel, pause + 18 * 60, "CLOSED", rule=True, els=("OPEN" if rel != "=" else None)) for rel in ("=", ">=", ">")]
+        cs += [ctl("clock", rel, (pause + 18 * 60 + 3 * H) % DAY, "CLOSED", rule=True) for rel in ("=", ">=")]
+        cs += [ctl("time", "<", pause + 18 * 60, "CLOSED", rule=True, els="OPEN")]
+        for c in cs:
+            s = base(H, 360, 3 * H)
+            s["opts"]["dur"] = 8 * H
+            s["controls"] = [dict(c, name="c0")]
+            s["pause"] = pause
+            out.append(s)
     # several days: daily clock-time controls / rules must act on EVERY day of a 99-hour run (close at c1, reopen at c2)
     for c1, c2 in ((6 * H + 900, 18 * H), (23 * H + 1800, 2 * H), (H, 13 * H + 900)):
         for rule_ in (False, True):
@@ -272,6 +284,8 @@ def cases(tier):
     out = [s for s in out if not epanet_extra_instant(s)]
     for s in out:
         s["id"] = {"controls": s["controls"], "clock": s["opts"]["clock"], "hyd": s["opts"]["hyd"], "rule": s["opts"]["rule"], "late_clock": bool(s.get("late_clock"))}
+        if s.get("pause") is not None:
+            s["id"]["pause"] = s["pause"]
         if s.get("inp_read"):
             s["id"]["inp_read"] = s["inp_read"]
     return out
@@ -460,6 +474,22 @@ def run_case(s):
             os.unlink(pth)
         wn.options.time.report_timestep = "ALL"
         r = simulate(s, wn=wn)
+    elif s.get("pause") is not None:
+        # the run is paused at a hydraulic grid point and continued with a new simulator: the controls and rules still act at
+        # their configured instants (rule steps between the pause and the next hydraulic step included)
+        import wntr, warnings, numpy as np
+        wn = build(s)
+        parts = []
+        for stop in (s["pause"], s["opts"]["dur"]):
+            wn.options.time.duration = stop
+            with warnings.catch_warnings():
+                warnings.simplefilter("ignore")
+                parts.append(wrap(wntr.sim.WNTRSimulator(wn).run_sim(), wn))
+        r = parts[1]
+        r.error = parts[0].error or parts[1].error
+        r.warnings = parts[0].warnings + parts[1].warnings
+        r.times = parts[0].times + parts[1].times
+        r.link = {"status": {l: np.concatenate([parts[0].link["status"][l], parts[1].link["status"][l]]) for l in parts[0].link["status"]}}
     elif s.get("late_clock"):
         s0 = clone(s)
         s0["opts"]["clock"] = 0
@@ -480,6 +510,8 @@ def run_case(s):
         kinds = "read-from-inp:%s:" % s["inp_read"] + kinds
     if s.get("days"):
         kinds = "99h-run:" + kinds
+    if s.get("pause") is not None:
+        kinds = "paused-run:" + kinds
     counts["solved_instants"] = len(r.times)
     for l in targets:
         st = r.link["status"][l]
